@@ -66,17 +66,30 @@ def refvalue(sp, prop):
     return Opaque(("call", ("attr", ("param", "rd"), "get"), (sp.key(), prop.key())))
 
 
+def defn_value(I, P, spec):
+    """a potential definition as the parser delivers it: spec = (form label, [parameters], (marker, start), next spec or None)
+    -> PotentialFormInstanceTuple chain; any other value is used as it is (an opaque definition)"""
+    if not (isinstance(spec, tuple) and len(spec) == 4 and isinstance(spec[0], str)):
+        return spec
+    mod = P.module(COMMON)
+    pfi = I.module_global(mod, "PotentialFormInstanceTuple")
+    mrd = I.module_global(mod, "MultiRangeDefinitionTuple")
+    label, params, (marker, start), nxt = spec
+    return I.call(pfi, [Const(label), ListV([Num(ep.const(x)) for x in params], "list"),
+                        I.call(mrd, [Const(marker), Num(ep.const(start))], {}), defn_value(I, P, nxt) if nxt is not None else NONE], {})
+
+
 def rows(P, I, kind, entries):
     """kind 'embed' / 'density': [(species, defn value)]; kind 'fs': [((from, to), defn value)]"""
     mod = P.module(COMMON)
     if kind == "embed":
         t = I.module_global(mod, "EAMEmbedTuple")
-        return ListV([I.call(t, [Const(s), d], {}) for s, d in entries], "list")
+        return ListV([I.call(t, [Const(s), defn_value(I, P, d)], {}) for s, d in entries], "list")
     t = I.module_global(mod, "EAMDensityTuple")
     if kind == "density":
-        return ListV([I.call(t, [Const(s), d], {}) for s, d in entries], "list")
+        return ListV([I.call(t, [Const(s), defn_value(I, P, d)], {}) for s, d in entries], "list")
     st = I.module_global(mod, "EAMFSDensitySpeciesTuple")
-    return ListV([I.call(t, [I.call(st, [Const(a), Const(b)], {}), d], {}) for (a, b), d in entries], "list")
+    return ListV([I.call(t, [I.call(st, [Const(a), Const(b)], {}), defn_value(I, P, d)], {}) for (a, b), d in entries], "list")
 
 
 def build(P, make, fs, embed, density, missing=(), pair=None):
